@@ -40,7 +40,8 @@ RULE = (
     "family utemp: U-TEMP problems (deviation levels 0,1 complete over full pools; level 2: all pairs "
     "over core pools [quick]; thorough adds all pairs over full pools whose two slots belong to one "
     "action or include teff/tgoal) x all plans (multisets) of <= 2 timed steps over grid A plus all "
-    "plans of exactly 3 steps over the small grid B (see bounds); family uprob: instantaneous U-PROB "
+    "plans of exactly 3 steps over the small grid B (see bounds), plus, for the base problem and the "
+    "one-slot duration deviations, all plans of <= 2 steps over the non-dyadic grid {0,1/3,1} x {1,4/3,7/3}; family uprob: instantaneous U-PROB "
     "problems (levels 0,1; thorough: core pairs) x all multisets of <= 2 ground actions on the time "
     "grid {0,1,3/2}. Every plan the reference temporal semantics calls VALID is converted "
     "TTP -> STN -> TTP through the real code; states = happenings of the converted plans, "
@@ -61,6 +62,9 @@ G_SMALL = ([F(0), F(1), F(3, 2)], [F(1), F(2), F(3)])
 G_MID = ([F(0), F(1, 2), F(1), F(3, 2), F(2)], [F(1), F(3, 2), F(2), F(3)])
 G_FULL = ([F(0), F(1, 2), F(1), F(3, 2), F(2), F(3)], [F(1), F(3, 2), F(2), F(5, 2), F(3)])
 UPROB_TIMES = [F(0), F(1), F(3, 2)]
+# start times / durations that no binary floating point number represents exactly: used (<= 2 steps) for
+# the base problem and for every one-slot deviation of a duration slot
+G_THIRDS = ([F(0), F(1, 3), F(1)], [F(1), F(4, 3), F(7, 3)])
 
 
 def _g(g):
@@ -73,6 +77,7 @@ def bounds(tier):
             "utemp": {
                 "levels 0,1": {"<=2 steps": _g(G_SMALL), "3 steps": _g(G_SMALL)},
                 "level 2 (core pairs)": {"<=2 steps": _g(G_SMALL)},
+                "level 0 and one-slot duration deviations, additionally": {"<=2 steps": _g(G_THIRDS)},
             },
             "uprob": {"levels": [0, 1], "steps": 2, "times": [str(x) for x in UPROB_TIMES]},
         }
@@ -81,6 +86,7 @@ def bounds(tier):
             "levels 0,1": {"<=2 steps": _g(G_FULL), "3 steps": _g(G_SMALL)},
             "level 2 core pairs": {"<=2 steps": _g(G_MID), "3 steps": _g(G_SMALL)},
             "level 2 other pairs": {"<=2 steps": _g(G_MID)},
+            "level 0 and one-slot duration deviations, additionally": {"<=2 steps": _g(G_THIRDS)},
         },
         "uprob": {"levels": [0, 1, "2 (core pairs)"], "steps": 2, "times": [str(x) for x in UPROB_TIMES]},
     }
@@ -125,10 +131,14 @@ def _is_core(cid):
 
 def plans_for(cid, tier):
     level = len(cid)
+    extra = []
+    if level == 0 or (level == 1 and cid[0][0].endswith(".dur")):
+        seen = set(plan_set(G_SMALL, None) if tier == "quick" else plan_set(G_FULL, None))
+        extra = [pl for pl in plan_set(G_THIRDS, None) if pl not in seen]
     if tier == "quick":
-        return plan_set(G_SMALL, G_SMALL if level <= 1 else None)
+        return plan_set(G_SMALL, G_SMALL if level <= 1 else None) + extra
     if level <= 1:
-        return plan_set(G_FULL, G_SMALL)
+        return plan_set(G_FULL, G_SMALL) + extra
     return plan_set(G_MID, G_SMALL if _is_core(cid) else None)
 
 
